@@ -1,7 +1,6 @@
 \* (quick tier: one hasher thread is enough for these counterexamples)
-\* The strict reading of "any other bytes are rejected": expected to be VIOLATED by the model of the
-\* current code (UnmarshalFn returns nil without checking once the Block is populated).  The check
-\* replays the counterexample on the real code; only a reproduced behaviour counts.
+\* Sensitivity: with the code BEFORE repo commit 64c8839 (PopulatedShortcut = TRUE: UnmarshalFn returns nil
+\* without checking once the Block is populated) this invariant must be VIOLATED.  Not a verdict on the code.
 SPECIFICATION Spec
 CONSTANTS
   IDs = {"a"}
@@ -13,6 +12,8 @@ CONSTANTS
   Threads = {"t1"}
   MaxMsgs = 2
   Bodies <- BodiesTiny
+  PopulatedShortcut = TRUE
+  KeyAlias <- NoWide
   RecordHist = FALSE
 INVARIANTS
   HasherAcceptsOnlyVerified
